@@ -10,6 +10,8 @@ closed-interval reference over exact rationals + report/target relation + null p
 
 from __future__ import annotations
 
+import math
+
 import itertools
 from datetime import datetime, timedelta, timezone
 from fractions import Fraction as Fr
@@ -30,7 +32,7 @@ W = Power.from_watts
 NOW = datetime(2024, 1, 1, tzinfo=timezone.utc)
 MAX_AGE = 60.0
 
-BUDGET = {"quick": {"C03": 1800, "C04": 1300}, "thorough": {"C03": 15000, "C04": 8000}}
+BUDGET = {"quick": {"C03": 1800, "C04": 3000}, "thorough": {"C03": 15000, "C04": 8000}}
 SIZE_BOUNDS = {
     "quick": "<=8 actors, <=20 operations (C03) / <=7 proposals, <=8 re-sent proposals (C04); values on a grid of 5 W in [-250,250] plus floats",
     "thorough": "<=6 actors, <=30 operations (C03) / <=7 proposals (C04)",
@@ -60,7 +62,7 @@ ASSUMPTIONS = [
 ]
 MIN_LABELS = {
     "C03": {"replacement": 0.3, "expiry": 0.1, "clamped": 0.3, "bounds_change": 0.2},
-    "C04": {"conflict_free": 0.6, "clamped_by_higher": 0.05, "excl_moves": 0.015},
+    "C04": {"conflict_free": 0.6, "clamped_by_higher": 0.05, "excl_moves": 0.015, "five_or_more_proposals_with_resends": 0.2},
 }
 
 GRID = [float(x) for x in range(-250, 251, 5)]
@@ -69,6 +71,20 @@ GRID = [float(x) for x in range(-250, 251, 5)]
 def _val(lo: float = -250.0, hi: float = 250.0) -> st.SearchStrategy[float]:
     grid = [g for g in GRID if lo <= g <= hi] or [lo]
     return st.one_of(st.sampled_from(grid), st.sampled_from(grid), st.floats(lo, hi).map(lambda x: round(x, 3)))
+
+
+def _pick(draw: Any, items: list[Any]) -> Any:
+    """draw(sampled_from(items)) without building a new (uncacheable) strategy per call."""
+    return items[draw(st.integers(0, len(items) - 1))]
+
+
+def _draw_val(draw: Any, lo: float = -250.0, hi: float = 250.0) -> float:
+    """Same distribution as draw(_val(lo, hi)), built from cacheable strategies (generation was the bottleneck)."""
+    if draw(st.integers(0, 2)) < 2:
+        i0 = max(0, math.ceil((lo + 250.0) / 5.0))
+        i1 = min(len(GRID) - 1, math.floor((hi + 250.0) / 5.0))
+        return GRID[draw(st.integers(i0, i1))] if i0 <= i1 else lo
+    return round(draw(st.floats(lo, hi)), 3)
 
 
 @st.composite
@@ -121,7 +137,10 @@ def _c03_case(draw: Any, max_ops: int) -> dict[str, Any]:
 @st.composite
 def _c04_case(draw: Any, max_n: int) -> dict[str, Any]:
     sb = draw(_sysbounds(85))
-    n = draw(st.integers(1, max_n))
+    # light cases (four fifths) skip the expensive report relation and are spent on arrival order, replacement and
+    # many proposals instead: target vs reference + "sending an identical proposal again changes nothing"
+    light = draw(st.integers(0, 4)) > 0
+    n = draw(st.sampled_from(list(range(1, max_n + 1)) + [5, 6, max_n])) if not light else draw(st.integers(4, max_n + 2))
     prios = draw(st.lists(st.integers(0, 20), min_size=n, max_size=n, unique=True))
     prios.sort(reverse=True)
     free = draw(st.integers(0, 99)) < 15
@@ -133,7 +152,8 @@ def _c04_case(draw: Any, max_n: int) -> dict[str, Any]:
         else:
             near = [e + d for e in (sb["lo"], sb["hi"], sb["el"], sb["eu"], float(lo), float(hi))
                     for d in (-5.0, -1.0, 0.0, 1.0, 5.0)] + [sb["el"] / 2, sb["eu"] / 2, (sb["el"] + sb["eu"]) / 2]
-            pref = draw(st.one_of(st.none(), _val(), st.sampled_from(near)))
+            kind = draw(st.integers(0, 2))
+            pref = None if kind == 0 else _draw_val(draw) if kind == 1 else _pick(draw, near)
             ivs = _carve(lo, hi, Fr(sb["el"]), Fr(sb["eu"]))
             if not ivs:
                 bl = bu = None
@@ -141,20 +161,27 @@ def _c04_case(draw: Any, max_n: int) -> dict[str, Any]:
                 # choose a point that stays admissible, then bounds around it
                 a, b = ivs[draw(st.integers(0, len(ivs) - 1))]
                 cands = [g for g in GRID if a <= g <= b] or [float(a)]
-                point = draw(st.sampled_from(cands))
-                bl = draw(st.one_of(st.none(), _val(-250.0, point)))
-                bu = draw(st.one_of(st.none(), _val(point, 250.0)))
+                point = _pick(draw, cands)
+                tight = [0.0, 5.0, 10.0, 25.0, 50.0]
+                kb = draw(st.integers(0, 3))
+                bl = None if kb < 2 else _draw_val(draw, -250.0, point) if kb == 2 else max(-250.0, point - _pick(draw, tight))
+                kb = draw(st.integers(0, 3))
+                bu = None if kb < 2 else _draw_val(draw, point, 250.0) if kb == 2 else min(250.0, point + _pick(draw, tight))
                 if bl is not None:
                     lo = max(lo, Fr(bl))
                 if bu is not None:
                     hi = min(hi, Fr(bu))
         props.append({"prio": prio, "pref": pref, "bl": bl, "bu": bu})
-    order = draw(st.permutations(list(range(n))))
+    # arrival order: any permutation, or by rising / falling priority (degenerate shapes for ordered containers)
+    order_kind = draw(st.sampled_from(["perm", "perm", "rising", "falling"]))
+    order = (draw(st.permutations(list(range(n)))) if order_kind == "perm"
+             else list(range(n - 1, -1, -1)) if order_kind == "rising" else list(range(n)))
     return {"kind": "C04", "sys": sb, "props": [props[i] for i in order],
             "null_prio": draw(st.integers(0, 41)) / 2.0,
             # identical proposals sent again after the set is complete (replacement by an equal proposal
             # must change nothing)
-            "resend": draw(st.lists(st.integers(0, n - 1), min_size=0, max_size=8))}
+            "resend": draw(st.lists(st.integers(0, n - 1), min_size=2 if light else 0, max_size=12 if light else 8)),
+            "light": light}
 
 
 def strategy(tier: str, pid: str = "C03") -> st.SearchStrategy[Any]:
@@ -397,6 +424,13 @@ def _feed(sysb: dict[str, float], props: list[dict[str, Any]], resend: list[int]
 def _run_c04(case: dict[str, Any]) -> Verdict:
     v = Verdict()
     sysb, props = case["sys"], case["props"]
+    sb = _sb(sysb)
+    resend = case.get("resend", [])
+    try:
+        mat, target = _feed(sysb, props, resend)
+    except Exception as exc:  # pylint: disable=broad-except
+        v.fail(f"raised {type(exc).__name__}: {exc}")
+        return v
     ref, info = _reference(sysb, props)
     if ref is None:
         v.labels.add("conflicting_set_skipped")
@@ -405,23 +439,43 @@ def _run_c04(case: dict[str, Any]) -> Verdict:
     for k, flag in info.items():
         if flag:
             v.labels.add(k)
-    sb = _sb(sysb)
-    resend = case.get("resend", [])
     if len(resend) >= 2:
         v.labels.add("proposals_resent")
-    try:
-        mat, target = _feed(sysb, props, resend)
-    except Exception as exc:  # pylint: disable=broad-except
-        v.fail(f"raised {type(exc).__name__}: {exc}")
-        return v
+        if len(props) >= 5:
+            v.labels.add("five_or_more_proposals_with_resends")
     if Fr(target) not in ref:
         v.fail(f"target {target} is not the admissible value nearest to the deciding preference; reference accepts "
-               f"{sorted(float(r) for r in ref)}")
-
-    # report relation, per actor, with all lower-priority preferences removed
+               f"{sorted(float(r) for r in ref)}" + (f" (proposals {resend} were sent again unchanged)" if resend else ""))
     edges = {sysb["lo"], sysb["hi"], sysb["el"], sysb["eu"], 0.0}
     for p in props:
         edges |= {x for x in (p["bl"], p["bu"]) if x is not None}
+    if resend:
+        # the same conflict-free set reached without the repeated (identical) proposals: its target is judged by the
+        # same reference, and what each actor is told must be the same range (compared functionally: two different
+        # answers for one set cannot both be "exactly the range in which its preference is adopted")
+        plain, target_plain = _feed(sysb, props)
+        if Fr(target_plain) not in ref:
+            v.fail(f"target {target_plain} is not the admissible value nearest to the deciding preference; reference "
+                   f"accepts {sorted(float(r) for r in ref)}")
+        for p in props:
+            r_plain, r_resent = plain.get_status(COMP, p["prio"], sb), mat.get_status(COMP, p["prio"], sb)
+            for x in sorted(edges | {e + d for e in edges for d in (-1.0, 1.0)}):
+                a1 = {q.as_watts() for q in r_plain.adjust_to_bounds(W(x)) if q is not None}
+                a2 = {q.as_watts() for q in r_resent.adjust_to_bounds(W(x)) if q is not None}
+                if a1 != a2:
+                    v.fail(f"priority {p['prio']} is told {sorted(a1)} about {x} W, but {sorted(a2)} for the same proposal "
+                           f"set after proposals {resend} were sent again unchanged (bounds {r_plain.bounds} / {r_resent.bounds})")
+                    break
+            else:
+                continue
+            break
+
+    if case.get("light"):
+        v.labels.add("light_case")
+        v.nontrivial = len(props) >= 2 and (info["clamped_by_higher"] or info["excl_moves"])
+        return v
+
+    # report relation, per actor, with all lower-priority preferences removed
     for ai, actor in enumerate(props):
         stripped = [dict(q, pref=None) if q["prio"] < actor["prio"] else q for q in props]
         try:
